@@ -411,7 +411,7 @@ def judge(case, acc):
                  f'gantt task lines differ: unparsable {bad[:2]}, missing {list((exp - got).elements())[:3]}, extra {list((got - exp).elements())[:3]}')
         elif len(secs) >= 2:
             for t in tasks:
-                want = case['sections'].get(str(t.id), '-')
+                want = str(case['sections'].get(str(t.id), '-'))
                 if sect_of.get(t.id) != want and not (want == '-' and sect_of.get(t.id) is None):
                     viol('gantt/section', f'task {t.id} under section {sect_of.get(t.id)!r}, expected {want!r}')
                     break
@@ -425,7 +425,8 @@ def judge(case, acc):
     try:
         doc = make(MermaidNetwork).to_html()
         d = parse_doc(doc)
-        got, bad = parse_network(''.join(d.mermaid), {t.id for t in tasks})
+        # nodes that are tasks: the members and the outside tasks they depend on (the start node is the other source)
+        got, bad = parse_network(''.join(d.mermaid), {t.id for t in tasks} | {p.id for t in tasks for p in t.predecessors})
         exp = collections.Counter()
         for t in tasks:
             if len(t.predecessors) == 0:
@@ -513,7 +514,12 @@ def judge(case, acc):
 
 
 def gen_case(rnd):
-    sc = sched.gen_case(rnd, 'fwd', n_max=7, fixed=False, externals=False)
+    sc = sched.gen_case(rnd, 'fwd', n_max=7, fixed=False, externals=rnd.random() < 0.3)
+    for k_, e_ in enumerate(sc.get('externals') or []):
+        e_['via_removed_branch'] = False
+        e_['kid'] = None
+        if any(t['id'] == e_['id'] for t in sc['tasks']):
+            e_['id'] = 500 + k_      # (an outside task that shares a member's id would share its node in a diagram keyed by id)
     sc['now'] = REAL(2020, 1, 1)
     hostile = rnd.random() < 0.6
     names, sections = {}, {}
@@ -522,7 +528,7 @@ def gen_case(rnd):
     if rnd.random() < 0.4:
         for t in sc['tasks']:
             if rnd.random() < 0.6:
-                sections[str(t['id'])] = rnd.choice(['S1', 'S2', 'Phase A'])
+                sections[str(t['id'])] = rnd.choice(['S1', 'S2', 'Phase A', 'S1', 'S2', 0])     # a number is a section name too
     now = rnd.choice([REAL(2020, 1, 1), sc['date'] + td(days=2, hours=10), REAL(2030, 1, 1)])
     custom = {}
     if rnd.random() < 0.4:
